@@ -56,6 +56,10 @@ def generate(seed, tier, index):
                                                        {'LD_LIBRARY_PATH': '/opt/lib'}, {'FOO': 'bar baz', 'EMPTY': ''}])),
     }
     if rng.random() < 0.2:
+        # -f / -b given on the command line: same display in all modes (pipe mode only adds its warning about -b)
+        cfg['filter'] = rng.choice([None, 'wl_display', '.sync, .delete_id', 'wl_* ! .global', '2', '*'])
+        cfg['break'] = rng.choice([None, '.get_registry', 'wl_callback', '!', '3a'])
+    if rng.random() < 0.2:
         # programs write arbitrary bytes to stderr: a few undecodable ones must still display the same in all three modes
         from .. import faults as F
         cfg['byte_faults'] = F.gen_faults(rng, rng.randint(1, 3), ['badutf8', 'badutf8', 'flip', 'nul'])
@@ -85,7 +89,12 @@ def calibrate_real_child(cfg, data, sim_res):
     import subprocess
     import os
     sizes = ','.join(str(max(1, min(w, 4096))) for w in cfg['writes'])
-    argv = ['/venv/bin/python', os.path.join(rig.REPO, 'main.py'), '-C'] + (['--supress'] if cfg['suppress'] else []) + [
+    opts = []
+    if cfg.get('filter') is not None:
+        opts += ['-f', cfg['filter']]
+    if cfg.get('break') is not None:
+        opts += ['-b', cfg['break']]
+    argv = ['/venv/bin/python', os.path.join(rig.REPO, 'main.py'), '-C'] + (['--supress'] if cfg['suppress'] else []) + opts + [
         '-r', '/venv/bin/python', '-c', CHILD, data.hex(), sizes, str(cfg['status'])]
     r = subprocess.run(argv, input=b'quit\n', capture_output=True, timeout=120,
                        env=dict(os.environ, PYTHONDONTWRITEBYTECODE='1', PYTHONIOENCODING='utf-8'))
@@ -135,7 +144,8 @@ def simplifications(sc):
 
 
 def display(rec):
-    return [(k, p) for s, k, p in rec.events if k in ('out', 'err')]
+    return [(k, p) for s, k, p in rec.events if k in ('out', 'err')
+            and not (k == 'err' and 'Ignoring stop matcher when stdin is used' in p)]
 
 
 def execute(sc):
